@@ -196,7 +196,22 @@ func (e *bigEnv) bytesOf(v ssa.Value, at ssa.Instruction) *X {
 							}
 						}
 					}
-					if cnt == 1 {
+					stores := 0
+					for _, u := range *x.Referrers() {
+						if ia, ok := u.(*ssa.IndexAddr); ok {
+							for _, u2 := range *ia.Referrers() {
+								if _, isSt := u2.(*ssa.Store); isSt {
+									stores++
+								}
+							}
+						}
+					}
+					if stores > 0 {
+						// copies plus element stores: the piecewise layout, or nothing
+						if lay := e.layoutBuf(x, linForm{k: n, coef: map[string]int64{}}, at); lay != nil {
+							return lay
+						}
+					} else if cnt == 1 {
 						return Op("copyN", K(uint64(n)), e.bytesOf(src, at))
 					}
 					// ... or exactly one copy into its tail: copy(buf[N-len(src):], src) — src left-padded to N bytes
